@@ -1,0 +1,21 @@
+//go:build verif
+
+package chain
+
+import "github.com/btcsuite/btcd/wire"
+
+// The method in this file exists only under the "verif" build tag (check C15,
+// add-only).  It hands a block to the bitcoind client's notification handler
+// through the same channel BitcoindConn.sendBlockToClients uses, so that a
+// harness can deliver the block notifications a ZMQ subscription delivers
+// (the node's new tip, whatever its height) without a ZMQ publisher; the
+// height-based RPC poller never hands over a block that does not raise the
+// height.  Nothing here touches the client's state.
+
+// VerifC15HandBlock delivers a block notification to the client.
+func (c *BitcoindClient) VerifC15HandBlock(b *wire.MsgBlock) {
+	select {
+	case c.blockNtfns <- b:
+	case <-c.quit:
+	}
+}
